@@ -612,6 +612,9 @@ class Func:
                 pl = op_place(rv[1])
                 if pl and all(e == "*" for e in pl[1:]):
                     dq.append(pl[0])
+                elif pl and len(pl) == 2 and pl[1].startswith(".0:") and self.locals[pl[0]]["ty"].startswith("("):
+                    # `.0` of a checked-arithmetic (value, overflow) pair: the value itself
+                    dq.append(pl[0])
             elif rv[0] == "ref":
                 pl = rv[2]
                 if all(e == "*" for e in pl[1:]):
